@@ -47,6 +47,7 @@ fn plain_get_case(env: u8, fault: bool) {
         let e = kfs::k().fail_errno;
         kani::assume(e == kfs::EIO || e == kfs::EACCES || e == kfs::EMFILE || e == kfs::ESTALE);
     }
+    kfs::begin_op(kfs::OP_PLAIN_GET, 10, 0, 0);
     let r = cache.get(kfs::KEY_A);
     let st = kfs::k();
     if !fault {
@@ -131,6 +132,7 @@ fn plain_touch_case(env: u8, fault: bool) {
         let e = kfs::k().fail_errno;
         kani::assume(e == kfs::EIO || e == kfs::EACCES || e == kfs::ESTALE);
     }
+    kfs::begin_op(kfs::OP_PLAIN_TOUCH, 10, 0, 0);
     let r = cache.touch(kfs::KEY_A);
     let st = kfs::k();
     if !fault {
@@ -202,9 +204,11 @@ fn plain_write_case(put: bool, env: u8, fault: bool) {
         kfs::k().fail_at = kani::any();
         kfs::k().fail_errno = kani::any();
         let e = kfs::k().fail_errno;
-        kani::assume(e == kfs::EIO || e == kfs::EACCES || e == kfs::ENOSPC || e == kfs::ESTALE || e == kfs::ENOTDIR);
+        kani::assume(e == kfs::EIO || e == kfs::EACCES || e == kfs::ENOSPC || e == kfs::ESTALE || e == kfs::ENOTDIR || e == kfs::EXDEV);
     }
     let from = kfs::path_of(kfs::D_X, 0);
+    // capacities are dumped saturated (a replay only needs 'tiny' vs 'huge')
+    kfs::begin_op(if put { kfs::OP_PLAIN_PUT } else { kfs::OP_PLAIN_SET }, if capacity > 1_000_000 { 1_000_000 } else { capacity as i64 }, 0, 0);
     let r = if put { cache.put(kfs::KEY_A, &from) } else { cache.set(kfs::KEY_A, &from) };
     let st = kfs::k();
     let maintained = st.kind_calls[kfs::C_READDIR as usize] > 0;
@@ -337,28 +341,23 @@ kfs_harness! {
         kfs::mkdir(kfs::D_X);
         let ia = kfs::install(kfs::D_W, kfs::S_A, kfs::any_published(kfs::S_A, 50));
         let src = kfs::user_source(kfs::D_X, 0, kfs::S_A, 9, true);
-        let cache = Cache::new(kfs::path_of(kfs::D_W, kfs::NONE), kani::any());
-        let which: u8 = kani::any();
-        kani::assume(which < 4);
-        let name = match which {
-            0 => "",
-            1 => ".x",
-            2 => "/x",
-            _ => "\\x",
-        };
-        let op: u8 = kani::any();
-        kani::assume(op < 4);
+        let cache = Cache::new(kfs::path_of(kfs::D_W, kfs::NONE), 0);
         let from = kfs::path_of(kfs::D_X, 0);
-        let invalid = match op {
-            0 => matches!(cache.get(name), Err(e) if e.kind() == std::io::ErrorKind::InvalidInput),
-            1 => matches!(cache.touch(name), Err(e) if e.kind() == std::io::ErrorKind::InvalidInput),
-            2 => matches!(cache.set(name, &from), Err(e) if e.kind() == std::io::ErrorKind::InvalidInput),
-            _ => matches!(cache.put(name, &from), Err(e) if e.kind() == std::io::ErrorKind::InvalidInput),
-        };
-        assert!(invalid, "KV-C16: operations given an empty name, or one starting with '.', '/' or '\\', fail with InvalidInput");
+        // concrete loops: every reserved first byte x every operation
+        let names = ["", ".x", "/x", "\\x"];
+        let mut w = 0;
+        while w < 4 {
+            let name = names[w];
+            let g = matches!(cache.get(name), Err(e) if e.kind() == std::io::ErrorKind::InvalidInput);
+            let t = matches!(cache.touch(name), Err(e) if e.kind() == std::io::ErrorKind::InvalidInput);
+            let s = matches!(cache.set(name, &from), Err(e) if e.kind() == std::io::ErrorKind::InvalidInput);
+            let p = matches!(cache.put(name, &from), Err(e) if e.kind() == std::io::ErrorKind::InvalidInput);
+            assert!(g && t && s && p, "KV-C16: operations given an empty name, or one starting with '.', '/' or '\\', fail with InvalidInput");
+            w += 1;
+        }
         let st = kfs::k();
         assert!(st.calls == 0, "KV-C16: an operation on an invalid name modifies nothing (no filesystem call at all)");
         assert!(kfs::bound(kfs::D_W, kfs::S_A) == ia && kfs::bound(kfs::D_X, 0) == src, "KV-C16: an operation on an invalid name modifies nothing");
-        kani::cover!(op == 2 && which == 3, "set with a backslash name");
+        kani::cover!(true, "reachable");
     }
 }
